@@ -228,7 +228,7 @@ var integer32 = []*instructionType{
 		effects: func(i instruction) []expr.Effect {
 			val := exprtools.Lts(
 				regLoad(rs1, i, width32),
-				immConst(immTypeI, i),
+				immConst(immTypeI, i, width32),
 				expr.One,
 				expr.Zero,
 				width32,
@@ -244,7 +244,7 @@ var integer32 = []*instructionType{
 		effects: func(i instruction) []expr.Effect {
 			val := expr.NewLess(
 				regLoad(rs1, i, width32),
-				immConst(immTypeI, i),
+				immConst(immTypeI, i, width32),
 				expr.One,
 				expr.Zero,
 				width32,
